@@ -64,6 +64,10 @@ type HCase struct {
 	// Accept-Encoding on streaming/gRPC requests, Connect-Accept-Encoding on
 	// unary ones), naming algorithms; it is not this protocol's advertisement.
 	Stray string `json:"stray,omitempty"`
+	// Warm: before the request under test, the SAME handler serves a request
+	// with the same accept header but this request encoding ("-" = none).
+	// Negotiation is per call: the earlier peer's choices must not matter.
+	Warm string `json:"warm,omitempty"`
 }
 
 func supported(extra []string) []string {
@@ -110,6 +114,20 @@ func checkH(tt *testing.T, c HCase) (pbt.Info, error) {
 		}
 		req.Header.Set(other, c.Stray)
 		info.Label("stray-accept-header")
+	}
+	if c.Warm != "" {
+		wenc := c.Warm
+		if wenc == "-" {
+			wenc = ""
+		}
+		wreq := refwire.BuildRequest(&refwire.ReqSpec{
+			Protocol: c.Protocol, Kind: c.Kind, Codec: c.Codec,
+			Msgs:     [][]byte{refwire.EncodePing(c.Codec, 9, "warm-up")},
+			Encoding: wenc, CompressMsg: []bool{wenc != ""}, Accept: c.Accept, AcceptSep: c.AcceptSep,
+		})
+		_ = memnet.Serve(h, "POST", prog.Procedure(c.Kind), wreq.Header, bytes.NewReader(wreq.Body), memnet.ServeOpts{})
+		log.Reset()
+		info.Label("handler-served-another-peer-first")
 	}
 	rec := memnet.Serve(h, "POST", prog.Procedure(c.Kind), req.Header, bytes.NewReader(req.Body), memnet.ServeOpts{})
 	where := fmt.Sprintf("%s/%s/%s handler supporting %v (min %d), request encoding %q (compressed=%v), accept %q", c.Protocol, c.Codec, c.Kind, S, c.HMin, c.ReqEnc, reqCompressed, strings.Join(c.Accept, c.AcceptSep))
@@ -226,6 +244,9 @@ func genH(t *rapid.T) HCase {
 	c.Accept = algList(t, "accept", []string{"gzip", "deflate", "zlib", "toy", "br", "identity", "zstd", "GZIP", "gzip;q=0", "deflate;q=0", "toy; q=0"}, 5) // (q=0: explicitly refused)
 	c.AcceptSep = rapid.SampledFrom([]string{",", ", "}).Draw(t, "sep")
 	c.ReqSize = rapid.SampledFrom([]int{0, 3, 100, 3000}).Draw(t, "reqsize")
+	if rapid.IntRange(0, 2).Draw(t, "warm") == 0 {
+		c.Warm = rapid.SampledFrom([]string{"-", "gzip", "gzip", "deflate"}).Draw(t, "warmEnc")
+	}
 	if rapid.IntRange(0, 3).Draw(t, "stray") == 0 {
 		c.Stray = rapid.SampledFrom([]string{"gzip", "gzip, deflate", "deflate", "toy"}).Draw(t, "strayList")
 	}
